@@ -163,6 +163,7 @@ func Main(t *testing.T, props map[string]Prop) {
 	maxViol := envInt("SIM_MAX_VIOL", 2)
 	budget := time.Duration(envInt("SIM_BUDGET_S", 0)) * time.Second
 	selftest := os.Getenv("SIM_TRACE_HASHES") != ""
+	announce := os.Getenv("SIM_ANNOUNCE") != ""
 	sum := Summary{Property: name, Faults: map[string]int{}, Probes: map[string]int{}, Outcomes: map[string]int{}, Extra: map[string]int{}}
 	sched := map[uint64]bool{}
 	nontriv := map[uint64]bool{}
@@ -175,6 +176,9 @@ func Main(t *testing.T, props map[string]Prop) {
 		seed := RunSeed(verifSeed, name, i)
 		curSeed, curIdx = seed, i
 		pet()
+		if announce {
+			fmt.Fprintf(os.Stderr, "SIMRUN %d %d\n", i, seed)
+		}
 		tape := NewTape(seed)
 		dump := os.Getenv("SIM_DUMP_RUN") == strconv.Itoa(i)
 		res := runOne(t, p, tape, seed, dump)
